@@ -16,7 +16,7 @@
      statement is kept in the comment above them. *)
 From Coq Require Import List ZArith Bool Arith Lia.
 From SC Require Import Base.Res Base.PyList Inst.Heap Inst.ClassTable Inst.Model Inst.Canon
-  Inst.Abs Inst.SpecHelpers Inst.RefineProofs Inst.CopyProofs Inst.CopyStore.
+  Inst.Abs Inst.SpecHelpers Inst.RefineProofs Inst.CopyProofs Inst.CopyStore Inst.RefineMore.
 Import ListNotations.
 Open Scope nat_scope.
 
@@ -265,6 +265,97 @@ Example C05_examples :
    r = Ok (VRef 0) /\ nth_error (heap s') 0 = Some (OInst 2 [(1, VInt 4); (3, VInt 7)])).
 Proof. vm_compute. repeat split. Qed.
 
+(* ---------------- more helpers, in place (Inst/RefineMore.v) ---------------- *)
+(* transform_<a>(f, _inplace=True): the model refines spec_helper (Ok state and every Err
+   class), under the guard of C05_refines_partial plus: f from the pool {identity, +z,
+   constant scalar}, and the value currently read for the attribute -- the instance's own,
+   else the class-level one: `cur_val` -- is a proper scalar.  What is stored is
+   prepare(f(old)); an error raised by f or by the preparer, or a result of the wrong type,
+   leaves the heap untouched.  STILL MISSING for transform_<a>: attribute holding nothing
+   (builds type()), per-attribute transforms (nested values), collections. *)
+Theorem C05_transform_refines_partial : forall ct h0 l a c d k sp s f,
+  nth_error (heap s) l = Some (OInst c d) -> lookup_cls ct c = Some k -> lookup_attr k a = Some sp ->
+  NoDup (map fst d) -> aok (absv (heap s) (VRef l)) = true ->
+  c_frozen k = false -> no_inval k -> fail_at s = None ->
+  ty_depth (a_ty sp) < FUEL -> ty_is_collection (a_ty sp) = false ->
+  match a_prepare sp with Some g => scalar_fn g = true | None => True end ->
+  scalar_fn f = true -> vscalar (cur_val a d k) = true ->
+  let h := mkh [] true true VMissing false None None [] (Some f) in
+  let ah := mkah [] true true AMissing false None None [] (Some f) in
+  match run_helper ct l (HTransform a) h s with
+  | (Ok r, s') => r = VRef l /\
+                  spec_helper ct h0 (absv (heap s) (VRef l)) (STransform a) ah = SOk (absv (heap s') (VRef l))
+  | (Err e, s') => spec_helper ct h0 (absv (heap s) (VRef l)) (STransform a) ah = SErr e /\ heap s' = heap s
+  end.
+Proof.
+  intros ct h0 l a c d k sp s f Hl Hc Ha Hd Hok Hfz Hni Hfa Hty Hnc Hp Hf Hcur.
+  exact (transform_scalar_inplace_refines ct h0 l a c d k sp s Hl Hc Ha Hd Hok Hfz Hni Hfa Hty Hnc Hp f Hf Hcur).
+Qed.
+
+(* reset_<a>(_inplace=True): the class-level default is a literal (`literal_default`: an
+   override in a plain subclass, else the declared default, no default_factory) which is
+   either a proper scalar -- the attribute then holds the PREPARED default, exactly what
+   with_<a>(default) stores -- or absent (MISSING) -- the attribute is removed, and
+   AttributeError with the heap untouched when it holds nothing.  STILL MISSING:
+   default_factory, mutable defaults, invalidation. *)
+Theorem C05_reset_refines_partial : forall ct h0 l a c d k sp s,
+  nth_error (heap s) l = Some (OInst c d) -> lookup_cls ct c = Some k -> lookup_attr k a = Some sp ->
+  NoDup (map fst d) -> aok (absv (heap s) (VRef l)) = true ->
+  c_frozen k = false -> no_inval k -> fail_at s = None ->
+  ty_depth (a_ty sp) < FUEL -> ty_is_collection (a_ty sp) = false ->
+  match a_prepare sp with Some g => scalar_fn g = true | None => True end ->
+  literal_default a k sp ->
+  vscalar (class_default k a) = true \/ class_default k a = VMissing ->
+  let h := mkh [] true true VMissing false None None [] None in
+  let ah := mkah [] true true AMissing false None None [] None in
+  match run_helper ct l (HReset a) h s with
+  | (Ok r, s') => r = VRef l /\
+                  spec_helper ct h0 (absv (heap s) (VRef l)) (SReset a) ah = SOk (absv (heap s') (VRef l))
+  | (Err e, s') => spec_helper ct h0 (absv (heap s) (VRef l)) (SReset a) ah = SErr e /\ heap s' = heap s
+  end.
+Proof.
+  intros ct h0 l a c d k sp s Hl Hc Ha Hd Hok Hfz Hni Hfa Hty Hnc Hp Hlit Hdv.
+  exact (reset_scalar_inplace_refines ct h0 l a c d k sp s Hl Hc Ha Hd Hok Hfz Hni Hfa Hty Hnc Hp Hlit Hdv).
+Qed.
+
+(* non-vacuity of the two guards: a class without invalidated_by, attribute 1 with default 3
+   and preparer +1, attribute 3 Optional[int] without default *)
+Definition ex_ct2 : ctable :=
+  [mkcls 2 [mkattr 1 TInt (VInt 3) None 2 true false (Some (FAddInt 1)) None [];
+            mkattr 3 (TOpt TInt) VMissing None 2 true false None None []]
+         false false None [2] 2 [] None None].
+Definition ex_k2 : cls := nth 0 ex_ct2 (mkcls 0 [] false false None [] 0 [] None None).
+Definition ex_state2 : state := mkst [OInst 2 [(1, VInt 7); (3, VInt 9)]] 0 None.
+
+Example C05_examples_more :
+  (* the guard *)
+  (lookup_cls ex_ct2 2 = Some ex_k2 /\ c_frozen ex_k2 = false /\ no_inval ex_k2 /\
+   aok (absv (heap ex_state2) (VRef 0)) = true /\
+   vscalar (cur_val 1 [(1, VInt 7); (3, VInt 9)] ex_k2) = true /\
+   vscalar (class_default ex_k2 1) = true /\ class_default ex_k2 3 = VMissing /\
+   (forall sp, In sp (c_attrs ex_k2) -> literal_default (a_name sp) ex_k2 sp)) /\
+  (* transform_a1(x+10, _inplace=True): 7 -> prepare(17) = 18 *)
+  (let '(r, s') := run_helper ex_ct2 0 (HTransform 1) (mkh [] true true VMissing false None None [] (Some (FAddInt 10))) ex_state2 in
+   r = Ok (VRef 0) /\ nth_error (heap s') 0 = Some (OInst 2 [(1, VInt 18); (3, VInt 9)])) /\
+  spec_helper ex_ct2 [] (absv (heap ex_state2) (VRef 0)) (STransform 1)
+              (mkah [] true true AMissing false None None [] (Some (FAddInt 10)))
+    = SOk (AInst 2 [(1, AInt 18); (3, AInt 9)]) /\
+  (* reset_a1(_inplace=True): the prepared default 3+1; reset_a3: removed *)
+  (let '(r, s') := run_helper ex_ct2 0 (HReset 1) (mkh [] true true VMissing false None None [] None) ex_state2 in
+   r = Ok (VRef 0) /\ nth_error (heap s') 0 = Some (OInst 2 [(1, VInt 4); (3, VInt 9)])) /\
+  (let '(r, s') := run_helper ex_ct2 0 (HReset 3) (mkh [] true true VMissing false None None [] None) ex_state2 in
+   r = Ok (VRef 0) /\ nth_error (heap s') 0 = Some (OInst 2 [(1, VInt 7)])) /\
+  spec_helper ex_ct2 [] (absv (heap ex_state2) (VRef 0)) (SReset 3)
+              (mkah [] true true AMissing false None None [] None)
+    = SOk (AInst 2 [(1, AInt 7)]).
+Proof.
+  split; [|vm_compute; repeat split].
+  split; [reflexivity|]. split; [reflexivity|]. split.
+  { intros sp [<-|[<-|[]]]; reflexivity. }
+  split; [vm_compute; reflexivity|]. split; [reflexivity|]. split; [reflexivity|]. split; [reflexivity|].
+  intros sp [<-|[<-|[]]] _; reflexivity.
+Qed.
+
 Print Assumptions C05_noop_if_false.
 Print Assumptions C05_noop_with_unchanged.
 Print Assumptions C05_noop_update_unchanged.
@@ -283,3 +374,6 @@ Print Assumptions C05_update_scalar_is_with.
 Print Assumptions C05_deepcopy_preserves_abs_flat.
 Print Assumptions C05_acyclic_fields_independent.
 Print Assumptions C05_examples.
+Print Assumptions C05_transform_refines_partial.
+Print Assumptions C05_reset_refines_partial.
+Print Assumptions C05_examples_more.
